@@ -156,6 +156,11 @@ fn c04() {
     for k in 0..tier.pick(4, 10) {
         add(json!({"mode": "during-shutdown", "n": 1, "cap": 8, "jump_k": k, "pb": pb}));
     }
+    // the flush future is polled once with a throw-away waker before it is waited for
+    add(json!({"mode": "self", "n": 1, "after": 1, "cap": 8, "probe_first": true, "pb": pb}));
+    add(json!({"mode": "self", "n": 2, "after": 1, "cap": 8, "probe_first": true, "boxed": true, "pb": pb}));
+    add(json!({"mode": "separate", "n": 1, "flushers": 1, "cap": 8, "probe_first": true, "pb": pb}));
+    add(json!({"mode": "during-shutdown", "n": 1, "cap": 8, "probe_first": true, "pb": pb}));
     // the requester drops the only queue handle right after the request
     for n in 1..=2 {
         for boxed in [false, true] {
@@ -333,7 +338,11 @@ fn c10() {
     add(json!({"producers": [[["a", 1]]], "main": [["a", 2]], "flush": true, "pb": pb}));
     add(json!({"producers": [[["a", 1]]], "main": [["b", 2]], "flush": true, "pb": pb}));
     add(json!({"producers": [[["a", 1], ["a", 3]]], "main": [["a", 2]], "flush": true, "pb": pb}));
+    // overlapping flush requests: another thread's flush is in flight when main flushes
+    add(json!({"producers": [], "main": [["a", 2]], "flush": true, "flushers": 1, "pb": pb}));
+    add(json!({"producers": [[["a", 1]]], "main": [["a", 2]], "flush": true, "flushers": 1, "pb": pb}));
     if tier == Tier::Thorough {
+        add(json!({"producers": [], "main": [["a", 2], ["b", 1]], "flush": true, "flushers": 2, "pb": 2}));
         add(json!({"producers": [[["a", 1]], [["b", 5]]], "main": [["a", 2]], "flush": true, "pb": 2}));
         add(json!({"producers": [[["a", 1], ["b", 1]], [["a", 5], ["b", 5]]], "main": [], "pb": 2}));
     }
@@ -400,6 +409,11 @@ fn c20() {
     add(json!({"pb": pb}));
     let n = jobs.len();
     jobs[n - 1].harness = "c20_describe";
+    for kind in ["c", "h"] {
+        for readouts in 1..=2u64 {
+            jobs.push(Job { harness: "c20_describe_vs_readout", cfg: json!({"kind": kind, "readouts": readouts, "pb": pb}) });
+        }
+    }
     finish(rep, jobs, "Two threads describing (and incrementing) their own metric at the same moment: the readout writes both with the described unit. 1-3 updater threads x 1-3 operations (counter increments on shared and distinct keys, histogram records, gauge sets; handles registered up front or on first use) against 1-3 readouts on the main thread plus a final readout, all schedules within the preemption bound, counters and gauges on loom atomics: per key the reported counter deltas sum to the total incremented, histogram occurrences sum to the number of records, the gauge reports the last value set.");
 }
 
